@@ -10,6 +10,23 @@ from snaxc.dialects import snax
 from snaxc.util.dispatching_rules import dispatch_to_compute, dispatch_to_dm
 
 
+def is_covered_by(op: Operation, sync_op: Operation) -> bool:
+    """
+    A barrier only synchronises the operations that can not be reached without
+    executing it: operations in the block of the barrier, or nested deeper in it.
+    A barrier nested in a loop or conditional does not cover the operations
+    behind that loop or conditional (it may never be executed).
+    """
+    sync_block = sync_op.parent_block()
+    block = op.parent_block()
+    while block is not None:
+        if block is sync_block:
+            return True
+        parent_op = block.parent_op()
+        block = parent_op.parent_block() if parent_op is not None else None
+    return False
+
+
 class InsertSyncBarrier(ModulePass):
     """This pass inserts  snax synchronisation barriers in a program.
     Synchronisation barriers are required when data is shared between
@@ -32,12 +49,12 @@ class InsertSyncBarrier(ModulePass):
                 sync_op = snax.ClusterSyncOp()
                 rewriter.insert_op(sync_op, InsertPoint.before(op_in_module))
 
-                # clear the list
-                ops_to_sync = []
+                # clear the list of everything this barrier synchronises
+                ops_to_sync = [x for x in ops_to_sync if not is_covered_by(x, sync_op)]
 
             if isinstance(op_in_module, snax.ClusterSyncOp):
-                # synchronisation ok, clear list
-                ops_to_sync: list[Operation] = []
+                # synchronisation ok, clear the list of everything this barrier synchronises
+                ops_to_sync: list[Operation] = [x for x in ops_to_sync if not is_covered_by(x, op_in_module)]
 
             # check all operands of current op
             for operand in [*op_in_module.operands, *op_in_module.results]:
